@@ -151,7 +151,16 @@ def clause_permissions(prog, rep):
                 succ |= oks
             cb = frozenset(x.bb for x in f.live_calls() if chmod.call(x))
             esc = any(A.ok_return_reachable(f, s, cb) for s in succ)
-            rep.check(bool(succ) and bool(cb) and not esc, "permissions", "chmod-after-create", "every Ok return after creating the file passes the chmod",
+            # or: the creating open(2) itself carries an owner-only mode (OpenOptionsExt::mode dominating the open, no group / other bits)
+            at_create = False
+            for m_ in f.live_calls():
+                if m_.name == "mode" and "OpenOptions" in (m_.self_ty or m_.self_adt or " ".join(m_.gen or [])) and len(m_.args) > 1 and f.dominates(m_.bb, c.bb):
+                    a = m_.args[1]
+                    vals = [a["c"]["int"]] if ("c" in a and "int" in a["c"]) else [k.get("int") for _, k in (f.depends_on(a["p"][0])[2] if "p" in a else []) if isinstance(k, dict) and "int" in k]
+                    if vals and all(v is not None and v & 0o077 == 0 for v in vals):
+                        at_create = True
+            rep.check(bool(succ) and ((bool(cb) and not esc) or at_create), "permissions", "chmod-after-create",
+                      "the created file is owner-only: %s" % ("mode set by the creating open itself" if at_create else "every Ok return after creating the file passes the chmod"),
                       "the file can be created and returned without restricting its permissions", c.loc())
         # AlreadyExists is told apart
         rep.check(any(True for _ in f.aggregates("FileCreationOutcome", "AlreadyExisted")), "permissions", "already-existed-outcome",
